@@ -1668,3 +1668,32 @@ package kcache
   at send(unsubscribech) set nunsub := (+ nunsub 1)
   exit [always-unsubscribes] (= nunsub 1)
 @*/
+
+/*@ iface kcache.Builder.Context
+  ensures (= result $recv)
+@*/
+/*@ iface kcache.Builder.Log
+  ensures (= result $recv)
+@*/
+/*@ iface kcache.Builder.Client
+  ensures (= result $recv)
+@*/
+/*@ iface kcache.Builder.Filter
+  ensures (= result $recv)
+@*/
+/*@ iface kcache.Builder.Create
+  ensures (=> (= result1 vnil) (not (= result0 vnil)))
+@*/
+/*@ func kcache.NewBuilder
+  props C11
+  fresh result
+  ensures (not (= result vnil))
+@*/
+/*@ func kcache.NewController
+  props C11 C20
+  ghost sameCtx : Bool := false
+  at call(Context) assert [builds-with-the-given-context] (= $0 {ctx})
+  at call(Log) assert [and-log] (= $0 {log})
+  at call(Client) assert [and-client] (= $0 {client})
+  ensures (=> (= result1 vnil) (not (= result0 vnil)))
+@*/
